@@ -6,9 +6,9 @@ CONSTANTS
   Streams <- S2
   TaskOf <- TaskOf1
   Script <- Script2
-  MaxCount = 1
+  MaxCount = 2
   MaxFaults = 1
   MaxCrashes = 1
   MayPause = TRUE
   StopOnAckFailure = TRUE
-  RetryAfterPause = FALSE
+  RetryAfterPause = TRUE
